@@ -4,5 +4,5 @@
 From Coq Require Import Extraction ExtrOcamlBasic.
 From AV.Model Require Import Base Bytes Vec Ops Interp.
 Extraction Language OCaml.
-Extraction "model.ml" run_step init_world world_lens world_caps world_snaps world_events
+Extraction "model.ml" run_step init_world world_lens world_caps world_snaps world_events world_raw
   N.of_nat N.to_nat N.add N.mul N.succ.
